@@ -520,8 +520,9 @@ class FJParser(sly.Parser):
         error_occurred = True
 
         if token is None:
+            # the input ended in the middle of a statement / block - point at the file's last line
             error_string = (
-                f'Syntax Error in {get_position(self.line_position(None))}. '
+                f'Syntax Error in {get_position(curr_text.count(chr(10)) + 1)}: unexpected end of file. '
                 f'Maybe missing }} or {{ before this line?'
             )
         else:
